@@ -630,7 +630,7 @@ META = {
                   'list of matching nodes that does not descend below a TypeDef and, in greedy mode, below a match (for '
                   'FindScopes: the ancestor chains). Every map_* method LokiWalkMapper defines is executed and must visit '
                   'exactly the structural children of its node kind, in order, and post-visit the node once (nothing if '
-                  'visit() vetoes). The list lemmas are proved by induction on every run. The class-level aliases of the literal kinds (map_int_literal = ..., map_logic_literal = ...) are resolved and the function they point to is verified against the literal's own children. ExpressionFinder.visit_Node / visit_tuple / visit_VariableDeclaration / _return / find_uniques are executed from their real source on abstract tokens for every shape of up to three children (nodes with and without matches, nested tuples) and declarations of one to three symbols with every pattern of initialisers, unique or not: the result is every match of every child, in order, including the matches of every declared symbol\'s initialiser.',
+                  'visit() vetoes). The list lemmas are proved by induction on every run. The class-level aliases of the literal kinds (map_int_literal = ..., map_logic_literal = ...) are resolved and the function they point to is verified against the children of that literal kind. ExpressionFinder.visit_Node / visit_tuple / visit_VariableDeclaration / _return / find_uniques are executed from their real source on abstract tokens for every shape of up to three children (nodes with and without matches, nested tuples) and declarations of one to three symbols with every pattern of initialisers, unique or not: the result is every match of every child, in order, including the matches of every declared symbol\'s initialiser.',
     'level_note': 'Level other: ExpressionFinder (visit_Node / visit_tuple / _return / find_uniques / with_ir_node pairing / '
                   'visit_VariableDeclaration) and ExpressionRetriever.retrieve are NOT under contract (generator expressions '
                   'with nested flatten; named), nor are the pymbolic WalkMapper methods that LokiWalkMapper re-uses '
